@@ -153,7 +153,10 @@ def preallocUncapped (n : Nat) : Nat := n
 theorem tagsupdate_alloc_fails_for_uncapped_variant :
     readVarInt [0xff, 0xff, 0xff, 0xff, 0x07] = .ok (2147483647, []) ∧
     preallocUncapped 2147483647 > 5 * 5 + capBound ∧ prealloc none 2147483647 = 32768 := by
-  refine ⟨by rfl, by decide, by decide⟩
+  have hw : writeVarInt 2147483647 = [0xff, 0xff, 0xff, 0xff, 0x07] := by decide +kernel
+  have hr := readVarInt_writeVarInt 2147483647 [] (by omega) (by omega)
+  rw [hw] at hr
+  exact ⟨hr, by decide, by decide⟩
 
 /-! ### non-vacuity -/
 
